@@ -180,11 +180,17 @@ CHECKS["C12"] = dict(
          "a disconnect exactly that connection's ephemeral instances are gone.",
     note="actor level; the HTTP / gRPC handlers above NamingCmd are exercised in thorough tier only", design_ref="5 C12")
 CHECKS["C13"] = dict(
-    engine="registry", technique=_REG + " with a virtual clock (Service::time_check takes the thresholds) and with the real clock",
+    engine="registry", technique=_REG + " with a virtual clock (Service::time_check takes the thresholds) and with the real clock; "
+              "timed observations of a real 3-node cluster evaluated by TLC against the requirements of ExpiryCluster.tla",
     text="TLC checks NeverExpireWhileBeating, NeverExpireGrpcOrPersistent, ExpiredAfterSweep and that every supervised "
          "instance is armed in a timeout queue; beat/silence/sweep behaviours run exactly on a real Service with a virtual "
-         "clock and a subset on a real NamingActor in real time.",
-    note="H = 1, T = 3 ticks in generation; propagation to other nodes is C15", design_ref="5 C13")
+         "clock and a subset on a real NamingActor in real time.  'Then everywhere': four HTTP instances of one service on a "
+         "real three-node cluster stop beating (one registered before, three after the nodes' 15 s snapshot pull; two of "
+         "them placed so that a removal and an unhealthy mark fall into one check tick); every node is sampled ~3 times per "
+         "second and TLC evaluates OwnerNotEarly / OwnerInTime / Everywhere / NotBefore over the observed state changes.",
+    note="H = 1, T = 3 ticks in generation; cluster leg: one schedule, time-outs 4 s / 9 s, lateness bound 6.5 s on the "
+         "responsible node (the implementation adds 3 s to both time-outs and sweeps every 2 s), 3.5 s to reach the others",
+    design_ref="5 C13")
 
 CHECKS["C19"] = dict(
     engine="sequence",
